@@ -146,5 +146,7 @@ EmitCase == Emit => PrintT(<<"CASE", ToJson([ins |-> ins, cf |-> CF,
 \* two leaves at the root, sibling directories 1 and 2, a nested directory 1/3 that is also declarable as a leaf
 \* (the only prefix conflict: an opaque directory / file at 1/3 and something below it)
 PathsQuick == {<<3>>, <<4>>, <<1, 1>>, <<1, 2>>, <<2, 1>>, <<1, 3>>, <<1, 3, 1>>}
+\* quick tier: one sibling directory less (root directories are still a, and opaque c / d)
+PathsSmall == PathsQuick \ {<<2, 1>>}
 PathsThorough == PathsQuick \cup {<<1>>, <<2, 2>>, <<1, 3, 2>>, <<2, 1, 1>>}
 =============================================================================
